@@ -262,22 +262,11 @@ Definition cplx_build (re im : number) : res number :=
   | _, _ => ErrExn EXN_SYMENGINE
   end.
 
-(* the loader of ComplexDouble computes  re + I*im  in floating point (addnum(re, mulnum(I, im))):
-   the real part becomes re + im*0.0.  Modelled where that is determined by IEEE-754 alone:
-   im finite and re not a NaN; then im*0.0 is a zero with im's sign, and re + (that zero) is re
-   except that -0.0 + +0.0 = +0.0.  Other operands: code 99. *)
-Definition dbl_exp (b : N) : N := (b / 4503599627370496) mod 2048.
-Definition dbl_mant (b : N) : N := b mod 4503599627370496.
-Definition dbl_sign (b : N) : N := (b / 9223372036854775808) mod 2.
-Definition dbl_finite (b : N) : bool := negb (dbl_exp b =? 2047).
-Definition dbl_nan (b : N) : bool := (dbl_exp b =? 2047) && negb (dbl_mant b =? 0).
-Definition NEG_ZERO : N := 9223372036854775808.
+(* load_basic(RCP<const ComplexDouble>): two RealDouble parts give the value with exactly these
+   parts; other operands go through addnum(re, mulnum(I, im)) (code 99) *)
 Definition cd_build (re im : number) : res number :=
   match re, im with
-  | NDbl r, NDbl i =>
-      if dbl_finite i && negb (dbl_nan r) then
-        Ok (NCDbl (if (r =? NEG_ZERO) && (dbl_sign i =? 0) then 0 else r) i)
-      else ErrExn EXN_UNMODELLED
+  | NDbl r, NDbl i => Ok (NCDbl r i)
   | _, _ => ErrExn EXN_UNMODELLED
   end.
 
@@ -325,15 +314,21 @@ Definition build (tc : N) (vals : list (fval expr)) : res expr :=
       do x <- as_num c; do l <- rows2 rows; do ln <- rows_num l; Ok (EAdd x (um_build ln))
   | KPow, [FV (VE a); FV (VE b)] => Ok (EPow a b)
   | KInterval, [FV (VN lo); FV (VE s); FV (VN ro); FV (VE e)] =>
-      Ok (EInterval s e (negb (lo =? 0)) (negb (ro =? 0)))
-  | KBooleanAtom, [FV (VN b)] => Ok (EBool (negb (b =? 0)))
-  | KAndOr, [FL rows] => do l <- rows1 rows; Ok (EFN tc (set_build l))
-  | KXor, [FL rows] => do l <- rows1 rows; Ok (EFN tc l)
+      if (1 <? lo) || (1 <? ro) then ErrExn EXN_SERIAL else Ok (EInterval s e (lo =? 1) (ro =? 1))
+  | KBooleanAtom, [FV (VN b)] => if 1 <? b then ErrExn EXN_SERIAL else Ok (EBool (b =? 1))
+  | KAndOr, [FL rows] =>
+      do l <- rows1 rows;
+      if (length (set_build l) <? 2)%nat then ErrExn EXN_SERIAL else Ok (EFN tc (set_build l))
+  | KXor, [FL rows] =>
+      do l <- rows1 rows; if (length l <? 2)%nat then ErrExn EXN_SERIAL else Ok (EFN tc l)
   | KNot, [FV (VE a)] => Ok (EF1 tc a)
-  | KPiecewise, [FL rows] => do l <- rows2 rows; Ok (EPw l)
+  | KPiecewise, [FL rows] =>
+      do l <- rows2 rows; if (length l <? 1)%nat then ErrExn EXN_SERIAL else Ok (EPw l)
   | KContains, [FV (VE a); FV (VE b)] => Ok (ELex tc a b)
   | KAtomSet, [] => Ok (EAtom tc)
-  | KUnion, [FL rows] => do l <- rows1 rows; Ok (EFN tc (set_build l))
+  | KUnion, [FL rows] =>
+      do l <- rows1 rows;
+      if (length (set_build l) <? 2)%nat then ErrExn EXN_SERIAL else Ok (EFN tc (set_build l))
   | KComplement, [FV (VE a); FV (VE b)] => Ok (ELex tc a b)
   | KImageSet, [FV (VE _); FV (VE _); FV (VE _)] => ErrExn EXN_UNMODELLED
   | KFiniteSet, [FL rows] => do l <- rows1 rows; Ok (EFN tc (set_build l))
@@ -343,7 +338,8 @@ Definition build (tc : N) (vals : list (fval expr)) : res expr :=
   | KOneArg, [FV (VE a)] => Ok (EF1 tc a)
   | KTwoArg, [FV (VE a); FV (VE b)] => Ok (EF2 tc a b)
   | KFunctionSymbol, [FV (VS s); FL rows] => do l <- rows1 rows; Ok (EFunSym s l)
-  | KMultiArg, [FL rows] => do l <- rows1 rows; Ok (EFN tc l)
+  | KMultiArg, [FL rows] =>
+      do l <- rows1 rows; if (length l <? 1)%nat then ErrExn EXN_SERIAL else Ok (EFN tc l)
   | _, _ => ErrExn EXN_INTERNAL
   end.
 
@@ -369,7 +365,8 @@ Definition rd_uint (sw : bool) (w : nat) (bs : list N) : res (N * list N) :=
 
 (* vector::resize / string::resize of a size read from the stream happen before the elements are
    read: sizes of 2^32 bytes and more fail with std::length_error / std::bad_alloc in the test
-   environment (drivers run under RLIMIT_AS = 3 GiB) *)
+   environment (drivers run under RLIMIT_AS = 3 GiB); load_rcp_basic and DenseMatrix::loads
+   convert both to SerializationError *)
 Definition ALLOC_LIMIT : N := 4294967296.
 
 Definition dstate : Type := list N * list (N * wtree).
@@ -392,7 +389,7 @@ Section Fields.
     | SU64 | SF64 => do '(n, bs) <- rd_uint sw 8 (fst st); Ok (VN n, (bs, snd st))
     | SStr =>
         do '(n, bs) <- rd_uint sw 8 (fst st);
-        if ALLOC_LIMIT <=? n then ErrExn EXN_STD
+        if ALLOC_LIMIT <=? n then ErrExn EXN_SERIAL
         else match take_n n bs with
              | None => ErrExn EXN_SERIAL
              | Some (s, bs') => Ok (VS s, (bs', snd st))
@@ -425,7 +422,7 @@ Section Fields.
     | FOne s => do '(v, st1) <- dec_sfield s st; Ok (FV v, st1)
     | FSeq esz elem =>
         do '(n, bs) <- rd_uint sw 8 (fst st);
-        if ALLOC_LIMIT <=? n * esz then ErrExn EXN_STD
+        if ALLOC_LIMIT <=? n * esz then ErrExn EXN_SERIAL
         else do '(rows, st1) <- dec_rows k n elem (bs, snd st); Ok (FL rows, st1)
     end.
 
@@ -467,19 +464,19 @@ Fixpoint dec_node (fuel : nat) (sw : bool) (T : tclass) (st : dstate) : res (wtr
              end
   end.
 
-(* the stream header; an end of input here is a cereal::Exception that nothing converts *)
+(* the stream header; an end of input here is a cereal::Exception, converted by loads *)
 Definition rd_header (bs : list N) : res (bool * N * N * list N) :=
   match bs with
-  | [] => ErrExn EXN_STD
+  | [] => ErrExn EXN_SERIAL
   | flag :: r =>
       let sw := negb (flag =? 1) in
       match rd_uint sw 2 r with
       | Ok (major, r1) =>
           match rd_uint sw 2 r1 with
           | Ok (minor, r2) => Ok (sw, major, minor, r2)
-          | _ => ErrExn EXN_STD
+          | _ => ErrExn EXN_SERIAL
           end
-      | _ => ErrExn EXN_STD
+      | _ => ErrExn EXN_SERIAL
       end
   end.
 
@@ -492,15 +489,16 @@ Definition decode_lab (ver : N * N) (bs : list N) : res wtree :=
 Definition decode (ver : N * N) (bs : list N) : res expr :=
   do w <- decode_lab ver bs; Ok (wt_expr w).
 
-(* DenseMatrix::loads: row, col, the element vector; the constructor does not compare
-   row * col with the number of elements *)
+(* DenseMatrix::loads: row, col, the element vector, which must have row * col entries *)
 Definition decode_matrix (ver : N * N) (bs : list N) : res (N * N * list wtree) :=
   do '(sw, major, minor, r) <- rd_header bs;
   if negb ((major =? fst ver) && (minor =? snd ver)) then ErrExn EXN_SERIAL
   else
     match dec_fields (dec_node (S (length bs)) sw) sw (S (length bs))
                      [FOne SU32; FOne SU32; FSeq 8 [SNode TBasic]] (r, []) with
-    | Ok ([FV (VN row); FV (VN col); FL rows], _) => Ok (row, col, flat_map row_kids rows)
+    | Ok ([FV (VN row); FV (VN col); FL rows], _) =>
+        if row * col =? N.of_nat (length rows) then Ok (row, col, flat_map row_kids rows)
+        else ErrExn EXN_SERIAL
     | Ok _ => ErrExn EXN_INTERNAL
     | ErrExn c => ErrExn c
     | ErrFuel => ErrFuel
@@ -638,6 +636,21 @@ Fixpoint enc_node (sw : bool) (w : wtree) (seen : list N) : list N * list N :=
 Definition encode (sw : bool) (ver : N * N) (w : wtree) : list N :=
   [if sw then 0 else 1] ++ wr_uint sw 2 (fst ver) ++ wr_uint sw 2 (snd ver)
   ++ fst (enc_node sw w []).
+
+(* DenseMatrix::dumps: ar(row_, col_, m_) -- the elements share one id set *)
+Fixpoint enc_forest (sw : bool) (ws : list wtree) (seen : list N) : list (list N) * list N :=
+  match ws with
+  | [] => ([], seen)
+  | w :: r =>
+      let '(b, s1) := enc_node sw w seen in
+      let '(bs, s2) := enc_forest sw r s1 in (b :: bs, s2)
+  end.
+Definition matrix_schema : list field := [FOne SU32; FOne SU32; FSeq 8 [SNode TBasic]].
+Definition matrix_vals (rows cols : N) (es : list expr) : list (fval expr) :=
+  [FV (VN rows); FV (VN cols); FL (map row1 es)].
+Definition encode_matrix (sw : bool) (ver : N * N) (rows cols : N) (ws : list wtree) : list N :=
+  [if sw then 0 else 1] ++ wr_uint sw 2 (fst ver) ++ wr_uint sw 2 (snd ver)
+  ++ fst (enc_fvals sw matrix_schema (matrix_vals rows cols (map wt_expr ws)) (fst (enc_forest sw ws []))).
 
 (* which classes save_basic accepts (the others throw SerializationError / NotImplementedError) *)
 Definition saveable (e : expr) : bool :=
